@@ -315,10 +315,12 @@ def moveLast (s : St) (ri : Nat) : St :=
   let s := adopt s (s.nd lastNode).left lastNode
   adopt s (s.nd lastNode).right lastNode
 
+/-- `this.nodes = this.nodes[:len(this.nodes)-1]` -/
+def popSlot (s : St) : St := { s with nodes := s.nodes.pop }
+
 /-- the slot bookkeeping of `mapImp.Delete` for the vacated node `r` -/
 def vacate (s : St) (r : Nat) : St :=
-  let s := if (s.nd r).idx < s.nodes.size - 1 then moveLast s (s.nd r).idx else s
-  { s with nodes := s.nodes.pop }
+  popSlot (if (s.nd r).idx < s.nodes.size - 1 then moveLast s (s.nd r).idx else s)
 
 /-- `mapImp.Delete` -/
 def delete (fixed : Bool) (s : St) (k : Int) : St :=
